@@ -167,6 +167,9 @@ def grid_case(part, item):
     except Exception as e:  # noqa
         part.violation('partition-exception', f'{e} world={world} k={k}',
                        {'world': world, 'k': k})
+    if mode == 'inexact':
+        check_config(part, world, k, False, CATALOGUE[4], frac, 'inexact')
+        return
     if mode == 'small':
         for work in cost_dicts_small():
             for col in (True, False):
@@ -329,8 +332,18 @@ def main(run: core.Run):
     for world in range(1, 9 if thorough else 7):
         for k in divisors(world):
             items.append((world, k, 'small'))
+    # every (world, k) beyond the full range whose product world * (k/world)
+    # is not k in floating point (it lands below k for some, above for others)
+    lim = 1536 if thorough else 640
+    far = [(w, k) for w in range(maxw + 1, lim + 1) for k in divisors(w)
+           if w * (k / w) != k]
+    run.notes['inexact_pairs_beyond_full_range'] = {
+        'up_to_world': lim, 'pairs': len(far),
+        'product_above_k': sum(1 for w, k in far if w * (k / w) > k)}
+    items += [(w, k, 'inexact') for w, k in far]
     core.pmap(run, grid_case, items,
-              weight=lambda it: it[0] * (5 if it[2] == 'cat' else 800))
+              weight=lambda it: it[0] * {'cat': 5, 'small': 800,
+                                         'inexact': it[0] / 40}[it[2]])
     pitems = []
     for world in range(1, (64 if thorough else 24) + 1):
         for k in divisors(world):
@@ -355,7 +368,9 @@ def main(run: core.Run):
         'every local rank x colocate on/off x a catalogue of 5 cost '
         'dictionaries (ties, zeros, 40 layers, 1 layer, wide range); worlds '
         f'<= {8 if thorough else 6}: additionally ALL cost dictionaries with '
-        '<=3 layers and costs in {0,1,2}; KFACPreconditioner construction '
+        '<=3 layers and costs in {0,1,2}; every pair up to world '
+        f'{lim} whose float product world*(k/world) is inexact (below or '
+        'above k), all ranks; KFACPreconditioner construction '
         'with the fraction as float and as strategy enum in simulated worlds '
         '(small worlds and the first (world, k) pairs whose fraction is not '
         'exact in floating point, e.g. 98/2);'
